@@ -40,3 +40,19 @@ func (root *Root) VerifSubLockHeld() bool {
 	}
 	return true
 }
+
+// VerifDirectives returns the directive definitions of the root.
+func (root *Root) VerifDirectives() []Type {
+	root.init()
+	return root.dirs.list
+}
+
+// VerifArgs returns the arguments of a directive definition.
+func (t *Directive) VerifArgs() []*Arg {
+	return t.args.list
+}
+
+// VerifSchema returns the schema type (operation roots) or nil.
+func (root *Root) VerifSchema() *Schema {
+	return root.schema
+}
